@@ -12,7 +12,7 @@ MANIFEST = dict(
 )
 
 RULE = (
-    "W9: every binary tree shape (0/left-only/right-only/2 children per node) up to N nodes (quick 9, thorough 11) built "
+    "W9: every binary tree shape (0/left-only/right-only/2 children per node) up to N nodes (quick 9, thorough 12) built "
     "from BinaryTreeNode and from MathExpression classes with repeated ids, x 3 orders x every STOP position x start at "
     "every node with a non-zero depth argument; plus random shapes to 200 nodes, chains and zig-zags to depth 300. "
     "Monitors on visit_*/get_*/is_leaf/to_list/find_type/find_id compare each call with a reference recursion over "
@@ -27,7 +27,7 @@ SHARDS = {"quick": 8, "thorough": 16}
 DEADLINE = {"quick": 60, "thorough": 600}
 REQUIRED = {
     "visit:pre": 100, "visit:in": 100, "visit:post": 100, "visit:pre:stopped": 50, "visit:in:stopped": 50,
-    "visit:post:stopped": 50, "visit:nested": 500, "query:find_id:hit": 20, "query:find_id:miss": 5, "query:get_sibling": 50,
+    "visit:post:stopped": 50, "visit:nested": 500, "query:get_root:deep-chain": 5, "visit:non-stop-return-values": 100, "query:find_id:hit": 20, "query:find_id:miss": 5, "query:get_sibling": 50,
     "query:get_root_side": 50, "query:find_type": 20, "shape:one-child": 10, "mutation-histories": 50, "mutation:move": 50, "mutation:wrap": 50, "mutation:replaced-node-queried": 50, "mutation:same-child-set-again": 50, "mutation:walk-aborted-by-an-exception": 50,
 }
 
@@ -119,6 +119,12 @@ def drive_tree(rec, root, kindname, rng, full_stops=True):
             sub = len(S.nodes_preorder(start))
             visit = getattr(start, f"visit_{order}")
             visit(lambda node, depth, data: None, d0, None)
+            # visitors return all sorts of things when they do not want to stop (the value of an
+            # expression, a node, a flag): only the stop signal stops the walk
+            for other in (True, 1, "continue", 0, "", 2.5, [1], start):
+                visit(lambda node, depth, data, other=other: other, d0, None)
+            visit(lambda node, depth, data: node, d0, None)
+            rec.arm("visit:non-stop-return-values")
             stops = range(sub) if full_stops else sorted({0, sub - 1, rng.randrange(sub)})
             for j in stops:
                 c = [0]
@@ -328,7 +334,7 @@ def run(rec, cfg):
     MT.attach_visits("C14")
     MT.attach_queries("C14")
     fac = factories()
-    nmax = cfg.scale(9, 11)
+    nmax = cfg.scale(9, 12)
     rng = cfg.rng("c14")
     idx = 0
     for s in W9.all_shapes_upto(nmax):
@@ -358,6 +364,18 @@ def run(rec, cfg):
             drive_tree(rec, W9.build(s, f), kn, rng, full_stops=False)
         rec.arm("shapes:random-large")
         rec.sample({"shape": W9.shape_str(s)[:120], "nodes": W9.count(s), "height": W9.height(s)})
+    # very deep chains built iteratively through the constructors (no recursion needed to build or
+    # to walk up): the root is the root however far away it is
+    if cfg.shard == 1 % cfg.nshards:
+        from mathy_core.tree import BinaryTreeNode as _B
+
+        for depth in (1000, 4095, 4096, 4097, 5000, 20000, 70000):
+            node = bottom = _B()
+            for i in range(depth):
+                node = _B(node, None) if i % 2 else _B(None, node)
+            bottom.get_root()
+            bottom.parent.get_root()
+            rec.arm("query:get_root:deep-chain")
     # queries interleaved with structural mutations (stale per-node state)
     for i in range(cfg.scale(150, 3000)):
         if cfg.out_of_time():
